@@ -29,6 +29,10 @@ and the text is parsed by the real ``beanquery.parser.parse``;  the result must 
                 the printer puts one blank only where the chain would spell the date literal YYYY-MM-DD and the
                 run asserts that) and spaced; a text table with leading-zero spellings (2020-01-5, 2020-1-05 are
                 subtractions, 2020-01-05 is a date).
+    * minus-run adjacent minus signs without blanks (`x--y`, `--y`, `x---y`, `x*--y`, `f(--x)--y` ... over columns,
+                integer and decimal literals): alone, followed by an alias / further clauses on the same line, by a
+                newline, by a `;` comment -- `--` must not start a comment; the run asserts that the tight style
+                really prints these shapes without blanks.
     * ident     identifier spellings: plain, with digits / underscores, every reserved word + digit (quick) /
                 + letter, letter + reserved word, '_' + reserved word (thorough), every reserved word + '_'
                 suffix (see FINDING below), each in 15 syntactic positions.
@@ -449,6 +453,9 @@ INT_CHAIN_TEXTS = [
 ]
 
 
+REJECT = 'REJECT'       # expected outcome of a text that has no AST
+
+
 def _chain(values, first=None):
     e = first if first is not None else A.Constant(values[0])
     for v in (values if first is not None else values[1:]):
@@ -473,6 +480,12 @@ def int_chain_cases(al):
             for pos, st in _in_positions(al, e):
                 if first is None or pos in ('target', 'where'):
                     yield ('ast', (pos, '-'.join(map(str, values)), type(first).__name__), st)
+    # dddd-dd-dd is one date token; when it is no calendar date the text has no AST at all (in particular it is
+    # not the subtraction chain, whose tight print is kept away from this shape by the printer)
+    for text in ('2021-02-30', '2021-13-01', '2021-02-29', '2020-04-31', '2020-00-10', '2020-12-32'):
+        yield ('text', ('target', text), f'SELECT {text}', REJECT)
+        yield ('text', ('operand', text), f'SELECT {al.col}-{text} AS {al.alias}', REJECT)
+        yield ('text', ('where', text), f'SELECT * WHERE {al.col} < {text}', REJECT)
     for text, exp in INT_CHAIN_TEXTS:
         e = A.Constant(exp) if isinstance(exp, DATE) else _chain(exp)
         yield ('text', ('target', text), f'SELECT {text}', _sel([A.Target(e, None)]))
@@ -481,10 +494,51 @@ def int_chain_cases(al):
         yield ('text', ('where', text), f'SELECT * WHERE {text}>{al.col}', _sel(A.Asterisk(), None, A.Greater(e, A.Column(al.col))))
 
 
+def minus_run_cases(al):
+    """Adjacent minus signs (binary minus before unary minus, unary minus twice) written without blanks: `a--b`,
+    `--b`, `a---b` are arithmetic, not the start of a comment.  (label, text, expected statement AST): the tight
+    expression alone, followed by further clauses on the SAME line, and followed by a newline."""
+    from ..unparse import unparse
+    a, b, c = (A.Column(n) for n in al.fill[0])
+    pairs = [(a, b), (A.Constant(7), A.Constant(2)), (A.Constant(D('1.5')), A.Constant(D('0.25'))), (c, A.Constant(3)), (A.Constant(2020), a)]
+    shapes = [
+        ('x--y', lambda x, y: A.Sub(x, A.Neg(y))),
+        ('--y', lambda x, y: A.Neg(A.Neg(y))),
+        ('x---y', lambda x, y: A.Sub(x, A.Neg(A.Neg(y)))),
+        ('---y', lambda x, y: A.Neg(A.Neg(A.Neg(y)))),
+        ('x+--y', lambda x, y: A.Add(x, A.Neg(A.Neg(y)))),
+        ('x*--y', lambda x, y: A.Mul(x, A.Neg(A.Neg(y)))),
+        ('x<--y', lambda x, y: A.Less(x, A.Neg(A.Neg(y)))),
+        ('--x--y', lambda x, y: A.Sub(A.Neg(A.Neg(x)), A.Neg(y))),
+        ('f(--x)--y', lambda x, y: A.Sub(A.Function(al.func1, [A.Neg(A.Neg(x))]), A.Neg(y))),
+        ('x--y--x', lambda x, y: A.Sub(A.Sub(x, A.Neg(y)), A.Neg(x))),
+    ]
+    t = A.Table(al.table)
+    for sname, build in shapes:
+        for pi, (x, y) in enumerate(pairs):
+            e = build(x, y)
+            w = A.Greater(build(y, x), A.Constant(0))
+            et = unparse(e, 'minimal', 3, ends=False)
+            wt = unparse(w, 'minimal', 3, ends=False)
+            lab = (sname, pi)
+            yield lab + ('alone',), f'SELECT {et}', _sel([A.Target(e, None)])
+            yield lab + ('alias-same-line',), f'SELECT {et} AS {al.alias}, {al.col}', _sel([A.Target(e, al.alias), A.Target(A.Column(al.col), None)])
+            yield lab + ('clauses-same-line',), f'SELECT {et} FROM #{al.table} WHERE {wt} ORDER BY 1 DESC LIMIT 3', \
+                _sel([A.Target(e, None)], t, w, None, [A.OrderBy(1, A.Ordering.DESC)], None, 3)
+            yield lab + ('clauses-next-line',), f'SELECT {et}\nFROM #{al.table}\nWHERE {wt}\nLIMIT 3\n', _sel([A.Target(e, None)], t, w, None, None, None, 3)
+            yield lab + ('semicolon',), f'SELECT {al.col}, {et}; trailing comment', _sel([A.Target(A.Column(al.col), None), A.Target(e, None)])
+
+
 def printer_selfcheck():
     """The tight print of an integer subtraction chain must be tight unless that would spell a date literal
     (harness assertion, not a verdict)."""
     from ..unparse import unparse
+    x, y = A.Column('x'), A.Column('y')
+    for e, want in ((A.Sub(x, A.Neg(y)), 'x--y'), (A.Neg(A.Neg(y)), '--y'), (A.Sub(x, A.Neg(A.Neg(y))), 'x---y'),
+                    (A.Sub(A.Constant(7), A.Neg(A.Constant(2))), '7--2'), (A.Mul(x, A.Neg(A.Neg(A.Constant(D('1.5'))))), 'x*--1.5')):
+        got = unparse(e, 'minimal', 3)
+        if got != want:
+            raise AssertionError(f'tight print of {e!r} is {got!r}, expected {want!r} (adjacent minus signs need no blank)')
     for values, want in (([2020, 1, 5], '2020-1-5'), ([2020, 12, 31], '2020 -12-31'), ([12345, 12, 31], '12345-12-31'), ([999, 12, 31], '999-12-31'),
                          ([2020, 12, 315], '2020 -12-315'), ([2020, 13, 5], '2020-13-5'), ([2020, 12, 31, 10], '2020 -12-31-10')):
         got = unparse(_chain(values), 'minimal', 3)
@@ -801,6 +855,8 @@ def units(tier, seed, diff_all=True):
             idx += 1
             for j, (p, st) in enumerate([('minimal', 3), ('minimal', 0), ('full', 3)] + ([('minimal', 1), ('minimal', 2)] if thorough else [])):
                 yield ('ast', 'int-chain', label, rest[0], p, st, seed + idx + j, diff_all or j == 0)
+    for label, text, exp in minus_run_cases(al):
+        yield ('text', 'minus-run', label, text, exp, True)
     for label, name, node in ident_cases(al, thorough):
         idx += 1
         yield from emit('ident', label + (name,), node, idx)
@@ -875,6 +931,13 @@ def check_unit(u, acc):
     acc.count(f'texts[{group}]')
     acc.add('texts', hash(text))
 
+    if expected == REJECT:
+        acc.count('texts_expected_to_be_rejected')
+        public = public_parse(text)
+        if public[0] == 'ok':
+            out.append(('literal:impossible-date-accepted', f'text {text!r} holds a dddd-dd-dd token that is no calendar date and must be rejected; '
+                        f'it parses to {show(public)}', {'text': text, 'group': group, 'label': list(label), 'mode': 'must-reject'}))
+        expected = None
     if expected is not None:
         public = public_parse(text)                 # the round trip goes through the public entry point
         shipped = public if public[0] == 'ok' else run_parser(bq_parser.parser, text)
@@ -914,6 +977,8 @@ def check_unit(u, acc):
                 fp = f'roundtrip:literal:{type(_first_constant(expected)).__name__}'
             elif group == 'int-chain':
                 fp = 'roundtrip:int-chain'
+            elif group == 'minus-run':
+                fp = 'roundtrip:minus-run'
             else:
                 fp = f'roundtrip:{group}:{parens}'
             case = dict(base, mode='roundtrip', parens=parens, style=style, expected=ast_to_json(expected))
@@ -960,6 +1025,8 @@ def replay(case):
     expected = ast_from_json(case['expected']) if case.get('expected') is not None else None
     label = case.get('label')
     label = tuple(label) if isinstance(label, list) else label
+    if case['mode'] == 'must-reject':
+        return [Violation(fp, what, case) for fp, what, _ in check_unit(('text', case['group'], label, case['text'], REJECT, True), acc)]
     if case['mode'] == 'roundtrip':
         u = ('text', case['group'], label, case['text'], expected, True, (case.get('parens'), case.get('style')))
         res = check_unit(u, acc)
